@@ -33,6 +33,12 @@ RULE = ("seeded random declaration trees (depth <= 3: arguments, dotted groups, 
         "default_env=True and run with decoy environment variables APP_<NAME> for the names of nested fields that are not "
         "top-level arguments; 35% of the mutated cases run on a REUSED parser object that has already parsed (parse_object) its "
         "valid configuration. "
+        "Round 6: link attempts also target w.init_args.<int parameter> below a class-typed argument (an accepted one exempts the "
+        "parameter in every class of w); foreign names also include a declared name in upper case; foreign values also include "
+        "a mapping that mixes leaves with an empty mapping and one with two empty mappings at different depths; for a required "
+        "subcommand the dest key also holds a name that is no subcommand (object / config text); 30% of the object / config-text "
+        "cases (not parse_string(defaults=False)) carry their top-level / dotted-group List[dataclass] keys in the append spelling "
+        "'<key>+'; the leftover-argv check on valid cases also tries a token that does not look like an option. "
         "Non-trivial = the configuration was mutated; distinct = distinct (parser, configuration, channel).")
 TRUSTED = [
     "Coq 8.16.1 kernel + vm_compute",
@@ -51,7 +57,9 @@ ASSUMPTIONS = [
     "like defaults=True as far as subcommand sections are concerned; not modelled separately)",
     "argv as individual options and individual environment variables are not modelled (the configuration travels as a "
     "whole: object, config string, --cfg string, APP_CFG string)",
-    "links: only apply_on='instantiate' links whose target is an int field of a top-level dataclass-typed argument; WHICH "
+    "links: only apply_on='instantiate' links whose target is an int field of a top-level dataclass-typed argument or a "
+    "non-private int parameter below the init_args of a top-level class-typed argument (a required PRIVATE parameter that becomes "
+    "a link target is dropped from the per-class parser altogether: a rejected key, nothing for C06, not generated); WHICH "
     "attempts the library accepts is observed (the runner reports it per case) and given to model and spec as part of the "
     "parser's history, not predicted (the cycle rule is property C16's); what is modelled and proved is the effect on the "
     "required keys: a rejected attempt changes nothing, an accepted link exempts exactly its target. Links applied on parse "
@@ -65,6 +73,16 @@ ASSUMPTIONS = [
     "of the dataclass are not asked for and the result is None; noted in notes/C06.md, not modelled",
     "parse history: at most one earlier parse_object of the parser's valid configuration on the same parser object",
     "dict_kwargs (documented escape for unresolved **kwargs) is treated as declared and opaque; never generated",
+    "append spelling '<key>+': only for declared List[dataclass] keys at the top level / below dotted groups, on the object and "
+    "config-text channels with a previous value to append to (not parse_string(defaults=False), which refuses '<key>+' as unknown; "
+    "not inside subcommand sections, where the appended items are checked strictly at merge time even if the section is then "
+    "discarded; not through --cfg / APP_CFG, where the merge happens at another moment): over-rejections, not C06's business",
+    "a subcommand key holding a name that is no subcommand is generated for REQUIRED subcommands on the object / config-text "
+    "channels only (for an optional subcommand the refusal is a value error the model does not predict; through --cfg / APP_CFG "
+    "the library ends in a raw AttributeError, reported as an incidental defect)",
+    "group-level required=True (add_dataclass_arguments / add_class_arguments(..., required=True), _signatures.py:531-534) is not "
+    "generated: add_argument(type=<dataclass>, required=True) ignores `required` by design, and whether a required group counts as "
+    "present depends on merged defaults and on empty-mapping survival per mode, which the model does not carry",
     "for parsers with a link history only single mutations are generated (one error at a time): an accepted link removes its "
     "target from the defaults, which changes the key order of the merged namespace and thereby WHICH of two simultaneous errors "
     "is reported first (both are genuine; observed with seed 7: foreign key p.zz and null list-item field r.d[0]._t)",
@@ -73,8 +91,7 @@ ASSUMPTIONS = [
 ]
 EXHAUSTIVE = {"quick": False, "thorough": False}
 # class 9 (outside the guard AND neither the faithful model nor the property explains the observation) is deliberately not listed
-FINDING_CLASSES = {1: "foreign-key-empty-mapping", 2: "foreign-key-in-discarded-subcommand-section",
-                   3: "foreign-key-beside-class-path-misnamed"}
+FINDING_CLASSES = {2: "foreign-key-in-discarded-subcommand-section"}
 
 POOL = list("abdepqruvwxy")
 # names with a leading underscore, only for fields / parameters that come from a signature (dataclass fields, __init__
@@ -199,6 +216,16 @@ class Gen:
 
         out = [{"src": a[0], "tgt": [b[0], field(b)]}, {"src": b[0], "tgt": [a[0], field(a)]}]
         classes = [x for x in p["args"] if x[1][0] == "class"]
+        # like the dataclass arguments above: when no top-level class-typed argument has a public int parameter, one is added
+        # (a class with 2-3 int parameters, mostly required), so that link targets inside init_args occur regularly
+        if not any(d[0] == "arg" and not n.startswith("_") for x in classes for _, ps in x[1][2] for n, d in ps) and free and rng.random() < 0.7:
+            name = free.pop(rng.randrange(len(free)))
+            self.ncls += 1
+            ps = [[n, ["arg", rng.random() < 0.75]] for n in rng.sample(POOL, rng.randint(2, 3))]
+            ps = [f for f in ps if f[1][1]] + [f for f in ps if not f[1][1]]
+            w = [name, ["class", rng.random() < 0.3, [["C%d" % self.ncls, ps]]]]
+            p["args"].append(w)
+            classes.append(w)
         if classes and rng.random() < 0.6:
             w = rng.choice(classes)
             out.append({"src": a[0], "tgt": [w[0], "foo"]})
@@ -207,9 +234,20 @@ class Gen:
                 out.append({"src": w[0], "tgt": [t[0], field(t)]})
         if rng.random() < 0.4:
             out.append({"src": "zz", "tgt": [b[0], field(b)]})
+        # a target INSIDE the init_args of a class-typed argument (w.init_args.<int parameter of one of its classes>): an accepted
+        # link of this form reaches the per-class parsers as sub_add_kwargs["linked_targets"] and takes the parameter out of the
+        # required_args of every class of w that has it (ActionTypeHint.get_class_parser)
+        if classes and rng.random() < 0.85:
+            w = rng.choice(classes)
+            # not a private parameter: a required private parameter that becomes a link target stops being required and is then
+            # skipped like any private parameter with a default, i.e. the key is no longer defined at all (observed; a rejected
+            # key, not an accepted one, so nothing for C06)
+            params = sorted(set(n for _, ps in w[1][2] for n, d in ps if d[0] == "arg" and not n.startswith("_")))
+            if params:
+                out.append({"src": rng.choice([a, b])[0], "tgt": [w[0], "init_args", rng.choice(params)]})
         rng.shuffle(out)
         # a target field that does not exist would be a different experiment: keep targets well-formed
-        out = [ln for ln in out if ln["tgt"][1] == "foo" or any(n == ln["tgt"][1] for x in datas if x[0] == ln["tgt"][0] for n, _ in x[1][2])]
+        out = [ln for ln in out if ln["tgt"][1] in ("foo", "init_args") or any(n == ln["tgt"][1] for x in datas if x[0] == ln["tgt"][0] for n, _ in x[1][2])]
         return out
 
 
@@ -338,7 +376,10 @@ def all_keys(v, path=()):
             yield from all_keys(w, path + (i,))
 
 
-FOREIGN_VALUES = [7, None, {}, {"yy": 1}, {"yy": {}}, {"yy": {"k": 1}, "w": 2}, [1], [{"k": 1}], "s"]
+# incl. mappings without any leaf, one that mixes leaves with an empty mapping, and one with two empty mappings at different
+# depths (the pre-pass meets the shallowest first)
+FOREIGN_VALUES = [7, None, {}, {"yy": 1}, {"yy": {}}, {"yy": {"k": 1}, "w": 2}, [1], [{"k": 1}], "s",
+                  {"yy": {"k": 1}, "w": {}}, {"yy": {"k": {}}, "w": {}}]
 
 
 def at(cfg, path):
@@ -436,6 +477,10 @@ def _mutants(rng, p, cfg, tier):
             names.append(rng.choice(others))
         if path == () and p["sub"]:
             names.append(p["sub"]["dest"][:2])  # a foreign key that is a string prefix of a declared destination
+        # a declared name in another letter case is a different key
+        cased = [n.upper() for n in decl if n.upper() != n and n.upper() not in decl]
+        if cased and rng.random() < 0.5:
+            names.append(rng.choice(cased))
         for name in names:
             vals = FOREIGN_VALUES if tier == "thorough" else rng.sample(FOREIGN_VALUES, 3)
             for v in vals:
@@ -466,6 +511,12 @@ def _mutants(rng, p, cfg, tier):
                 b3 = copy.deepcopy(base)
                 b3[others[0]] = valid_fields(rng, dict(sub["map"])[others[0]], True)
                 out.append(("named-other-section", b3))
+        # the subcommand key holds a name that is not a declared subcommand (only for a REQUIRED subcommand: the model's
+        # ENoSub / the spec's "required subcommand missing" cover it; for an optional one the refusal is a value error)
+        if sub["req"]:
+            c = copy.deepcopy(cfg)
+            c[sub["dest"]] = "zz"
+            out.append(("misnamed-subcommand", c))
         # a foreign key in a second section (one that may be discarded)
         for s, sargs in sub["map"]:
             if s not in cfg:
@@ -503,13 +554,18 @@ def generate(rng, tier):
         cfg = valid_config(rng, p)
         ms = mutants(rng, p, cfg, tier)
         if tier == "quick" and len(ms) > 60:
-            keep = [m for m in ms[1:] if m[0].startswith("named-") or m[0] == "no-subcommand"]
-            rest = [m for m in ms[1:] if not (m[0].startswith("named-") or m[0] == "no-subcommand")]
+            keep = [m for m in ms[1:] if m[0].startswith("named-") or m[0] in ("no-subcommand", "misnamed-subcommand")]
+            rest = [m for m in ms[1:] if not (m[0].startswith("named-") or m[0] in ("no-subcommand", "misnamed-subcommand"))]
             ms = ms[:1] + keep + rng.sample(rest, max(0, 59 - len(keep)))
         for label, c in ms:
             chans = CHANNELS if (tier == "thorough" and label != "valid") else [rng.choice(CHANNELS)]
             if tier == "thorough" and len(ms) > 150:
                 chans = [rng.choice(CHANNELS)]
+            if label == "misnamed-subcommand":
+                # object / config text only: through --cfg / APP_CFG a name that is no subcommand ends in a raw AttributeError
+                # ('NoneType' object has no attribute '_subparsers', handle_subcommands on the partial config) instead of the
+                # ArgumentError: rejected all the same, reported to the lead as an incidental robustness defect (not C06)
+                chans = NODEF_CHANNELS if tier == "thorough" else [rng.choice(NODEF_CHANNELS)]
             for ch in chans:
                 cases.append({"parser": p, "cfg": c, "channel": ch, "label": label, "defaults": True})
             # the same configuration parsed WITHOUT merging defaults (object / config text only: --cfg and APP_CFG
@@ -558,6 +614,27 @@ def nested_field_names(p):
     return sorted(out - top)
 
 
+def append_paths(p, cfg):
+    """paths of the keys of declared List[dataclass] arguments (top level, dotted groups, subcommand sections) that hold a list"""
+    out = []
+
+    def walk(fs, v, path):
+        if not isinstance(v, dict):
+            return
+        for name, d in vis(fs):
+            if name not in v:
+                continue
+            if d[0] == "list" and isinstance(v[name], list):
+                out.append(list(path) + [name])
+            elif d[0] == "group":
+                walk(d[1], v[name], path + [name])
+
+    # not inside subcommand sections: an appended item is checked strictly at merge time even when its section is then
+    # discarded, so the spelling would reject what the plain spelling accepts (over-rejection; not modelled, see ASSUMPTIONS)
+    walk(p["args"], cfg, [])
+    return out
+
+
 def decorate(rng, cases):
     """two more dimensions of HOW a configuration reaches the parser, neither of which may change the answer:
     - object channel: the nested mappings are OrderedDict / defaultdict / a user dict subclass instead of dict;
@@ -574,6 +651,15 @@ def decorate(rng, cases):
             c["warm"] = [valid_of[id(c["parser"])]]
         if c["channel"] == "object":
             c["container"] = rng.choice(CONTAINERS)
+        # the list-append spelling of a declared List[...] key ("x+": [items] appends to the previous value, which is the
+        # default [] here): must answer like "x": [items].  Not with parse_string(defaults=False): there the loaded mapping is
+        # not merged into anything and the real parser refuses "x+" as an unknown key (an over-rejection, not C06's business)
+        # Only on the object / config-text channels: through --cfg / APP_CFG the appended value is merged at another moment, which
+        # changes WHICH of two simultaneous errors is reported first (observed: a foreign key reported before a missing list-item field)
+        if c["channel"] in ("object", "string") and not (c["channel"] == "string" and not c.get("defaults", True)) and rng.random() < 0.3:
+            paths = append_paths(c["parser"], c["cfg"])
+            if paths:
+                c["append"] = rng.sample(paths, rng.randint(1, len(paths)))
         if c.get("defaults", True) and c["channel"] in ("object", "string", "argvcfg") and rng.random() < 0.3:
             names = nested_field_names(c["parser"])
             if names:
@@ -673,15 +759,15 @@ def term(case, obs):
     links = case["parser"].get("links") or []
     outcomes = obs.get("links") or [False] * len(links)
     g_links = g_list(["{| l_tgt := %s; l_ok := %s |}" % (g_keys(ln["tgt"]), g_bool(ok)) for ln, ok in zip(links, outcomes)], "lnk")
-    return "{| c_mode := %s; c_parser := %s; c_links := %s; c_cfg := %s; c_obs := %s |}" % (
-        g_mode(case), g_parser(case["parser"]), g_links, g_cv(case["cfg"]), g_obs(obs))
+    return "{| c_mode := %s; c_parser := %s; c_links := %s; c_cfg := %s; c_append := %s; c_obs := %s |}" % (
+        g_mode(case), g_parser(case["parser"]), g_links, g_cv(case["cfg"]), g_list([g_keys(a) for a in case.get("append") or []], "(list str)"), g_obs(obs))
 
 
 def nontrivial_key(case, obs):
     if case.get("label") == "valid":
         return None
     return json.dumps([case["parser"], case["cfg"], case["channel"], case.get("defaults", True), case.get("container"),
-                       bool(case.get("env")), bool(case.get("warm"))], sort_keys=True)
+                       bool(case.get("env")), bool(case.get("warm")), case.get("append")], sort_keys=True)
 
 
 def category(case, obs):
@@ -691,7 +777,7 @@ def category(case, obs):
 
 def describe(case, obs):
     return {"parser_declarations": case["parser"], "configuration": case["cfg"], "channel": case["channel"], "defaults": case.get("defaults", True),
-            "object_mapping_type": case.get("container", "dict"), "parsed_before_on_the_same_parser": case.get("warm") or None, "default_env_with_decoy_variables": case.get("decoys") or None,
+            "object_mapping_type": case.get("container", "dict"), "parsed_before_on_the_same_parser": case.get("warm") or None, "default_env_with_decoy_variables": case.get("decoys") or None, "list_keys_given_in_append_spelling": case.get("append") or None,
             "mutation": case.get("label"), "real_parser_answer": obs}
 
 
@@ -741,15 +827,21 @@ META = {
                   "branch-key escape and the group/subcommand error variants, check_required with the recursion into the selected "
                   "subcommand, and the nested per-class parsers for List[dataclass] items and init_args): "
                   "(1) C06_accepted_has_no_undeclared_key: an accepted configuration has no undeclared key at any nesting level (top "
-                  "level, dotted groups, dataclass fields, init_args of a class, list items, section of the subcommand in force) other "
-                  "than keys of three listed finding classes; guarded form C06_accepted_only_if_all_keys_declared with the judge's "
-                  "guard_class; (2) C06_accepted_only_if_required_present: acceptance implies every required key of the closure (own "
+                  "level, dotted groups, dataclass fields, init_args of a class, list items, section of the subcommand in force), "
+                  "INCLUDING keys that hold a mapping without any leaf and keys beside class_path in a class value (both were guard "
+                  "classes until round 6: the library repaired them in a58b0fc / 56814dd, the model now contains the empty-mapping "
+                  "refusal of the _apply_actions pre-pass and the is_subclass_spec refusal, and the theorem is proved without those "
+                  "guards); the single exception left is a key in the section of a subcommand that is not in force (open finding, "
+                  "class 2); guarded form C06_accepted_only_if_all_keys_declared with the judge's guard_class; "
+                  "C06_append_spelling_accepts_no_more: the list-append spelling '<key>+' (run_append: strict item check at merge "
+                  "time, pre-pass skips the key) accepts no more than the plain spelling, so every acceptance theorem carries over; (2) C06_accepted_only_if_required_present: acceptance implies every required key of the closure (own "
                   "arguments, those of the subcommand in force, those of a kept section of another subcommand, required fields of every "
                   "list item, required parameters of the selected class, required fields of a given Optional[dataclass] parameter, recursively) is present and non-null, and C06_required_subcommand_selected: a required subcommand is selected "
                   "and declared; C06_required_present_after_rejected_links / C06_required_present_with_links: the same for parsers whose "
                   "construction included link_arguments attempts (a rejected attempt leaves every required key enforced; an accepted "
                   "link exempts exactly its target); (3) C06_unknown_key_error_only_if_undeclared: an unknown-key error is raised only when the configuration does "
-                  "contain an undeclared key; (4) three _refuted witnesses (kernel-evaluated) for the findings. "
+                  "contain an undeclared key; (4) one _refuted witness (kernel-evaluated) for the open finding and two Examples showing the "
+                  "repaired ones rejected with the key named. "
                   "That the key NAMED by the error is the offending one is NOT a theorem: it is checked per case by the correspondence (the key "
                   "extracted from the real ArgumentError must be a suffix of an undeclared / missing key path of the reference semantics, "
                   "judged inside Coq), as are the agreement of the four channels and the refusal of parse_known_args for external callers.",
